@@ -110,8 +110,10 @@ def prop_files(prop):
     """Props/<prop>.lean and its parts Props/<prop><Part>.lean (e.g. C17Keys, C17Time, C17Addr)."""
     d = os.path.join(LEAN, 'Hub', 'Props')
     out = []
+    # only the parts registered in the library root Hub.lean (a part still being written is not a claim)
+    registered = {os.path.basename(x)[:-5] for x in import_closure([os.path.join(LEAN, 'Hub.lean')]) if os.sep + 'Props' + os.sep in x}
     for f in sorted(os.listdir(d)):
-        if re.match(r'^%s([A-Z][A-Za-z]*)?\.lean$' % re.escape(prop), f):
+        if re.match(r'^%s([A-Z][A-Za-z]*)?\.lean$' % re.escape(prop), f) and f[:-5] in registered:
             out.append(os.path.join(d, f))
     return out
 
